@@ -162,8 +162,19 @@ fn part_m(bytes: &[u8], stats: &mut Stats) -> Verdict {
         stats.exclude("no mate in one in the generated position");
         return Ok(());
     }
-    let legal = p.legal_moves();
     let d = 1 + s.below(4) as u8;
+    judge_m(&p, d, kind, stats)
+}
+
+/// (M): a position with a mate in one; the answer of a depth-d search must be a mating move.
+pub fn judge_m(p: &Pos, d: u8, kind: &str, stats: &mut Stats) -> Verdict {
+    let p = p.clone();
+    let ms = mates(&p);
+    if ms.is_empty() {
+        stats.exclude("no mate in one in the position");
+        return Ok(());
+    }
+    let legal = p.legal_moves();
     let Some((score, mv, nodes)) = run_engine(&p, d)? else {
         stats.exclude("engine search over the node watchdog");
         return Ok(());
@@ -240,6 +251,18 @@ fn part_d(bytes: &[u8], stats: &mut Stats) -> Verdict {
         return Ok(());
     }
     let d = 2 + s.below(2) as u8;
+    judge_d(&p, d, kind, stats)
+}
+
+/// (D): some moves allow a mate in one and some do not; the answer must be one that does not.
+pub fn judge_d(p: &Pos, d: u8, kind: &str, stats: &mut Stats) -> Verdict {
+    let p = p.clone();
+    let legal = p.legal_moves();
+    let al = allows(&p);
+    if legal.len() < 2 || al.is_empty() || al.len() == legal.len() {
+        stats.exclude("not a mixed position");
+        return Ok(());
+    }
     let Some((score, mv, nodes)) = run_engine(&p, d)? else {
         stats.exclude("engine search over the node watchdog");
         return Ok(());
@@ -285,7 +308,12 @@ pub fn run(tier: Tier, seed: u64, known: &Known) -> PropRun {
     run
 }
 
-pub fn replay(part: &str, bytes: &[u8], _case: &Value, stats: &mut Stats) -> Verdict {
+pub fn replay(part: &str, bytes: &[u8], case: &Value, stats: &mut Stats) -> Verdict {
+    if let (Some(fen), Some(d)) = (case.get("fen").and_then(|x| x.as_str()), case.get("depth").and_then(|x| x.as_u64())) {
+        if let Some(p) = eng::pos_from_saved_fen(fen) {
+            return if part == "D" { judge_d(&p, d as u8, "replay", stats) } else { judge_m(&p, d as u8, "replay", stats) };
+        }
+    }
     match part {
         "D" => part_d(bytes, stats),
         _ => part_m(bytes, stats),
